@@ -806,6 +806,51 @@ func init() {
 			}
 			return done(&RValue{T: types.NewPointer(rv.T), P: rv.Addr})
 		},
+		"reflect.SliceOf": func(e *Exec, t *Thread, a []Value, g bool) (Value, bool) {
+			rt := a[0].(Iface).V.(*RType)
+			return done(e.rtypeIface(types.NewSlice(rt.T)))
+		},
+		"reflect.MakeSlice": func(e *Exec, t *Thread, a []Value, g bool) (Value, bool) {
+			rt := a[0].(Iface).V.(*RType)
+			st, ok := rt.T.Underlying().(*types.Slice)
+			if !ok {
+				e.goPanic("reflect.MakeSlice of non-slice type")
+			}
+			n, c := int(e.intArg(a[1])), int(e.intArg(a[2]))
+			if n < 0 || c < n || c > 1<<16 {
+				e.unsupported("reflect.MakeSlice(%d, %d)", n, c)
+			}
+			arr := e.newArrayObj(st.Elem(), c)
+			return done(&RValue{T: rt.T, S: Slice{Arr: arr, Len: n, Cap: c}})
+		},
+		"(reflect.Value).IsValid": func(e *Exec, t *Thread, a []Value, g bool) (Value, bool) {
+			return done(e.C.BoolConst(a[0].(*RValue).T != nil))
+		},
+		"(reflect.Value).Len": func(e *Exec, t *Thread, a []Value, g bool) (Value, bool) {
+			rv := a[0].(*RValue)
+			if rv.T == nil {
+				e.goPanic("reflect: call of reflect.Value.Len on zero Value")
+			}
+			if _, ok := rv.T.Underlying().(*types.Slice); !ok {
+				e.unsupported("reflect.Value.Len of %v", rv.T)
+			}
+			return done(e.C.BVConst(64, uint64(rv.S.Len)))
+		},
+		"(reflect.Value).Index": func(e *Exec, t *Thread, a []Value, g bool) (Value, bool) {
+			rv := a[0].(*RValue)
+			if rv.T == nil {
+				e.goPanic("reflect: call of reflect.Value.Index on zero Value")
+			}
+			st, ok := rv.T.Underlying().(*types.Slice)
+			if !ok {
+				e.unsupported("reflect.Value.Index of %v", rv.T)
+			}
+			i := int(e.intArg(a[1]))
+			if i < 0 || i >= rv.S.Len {
+				e.goPanic("reflect: slice index out of range")
+			}
+			return done(&RValue{T: st.Elem(), Addr: Ptr{Obj: rv.S.Arr, Path: []int{rv.S.Off + i}}, Adr: true})
+		},
 		"reflect.Zero": func(e *Exec, t *Thread, a []Value, g bool) (Value, bool) {
 			rt := a[0].(Iface).V.(*RType)
 			return done(&RValue{T: rt.T, Zero: true})
